@@ -95,6 +95,9 @@ def find_wrapping_inside(range_: NodeRange, type: NodeType) -> list[NodeType] | 
     i = start_index
 
     while inner_match and i < end_index:
+        # the wrapped nodes keep their marks, which the wrapper must allow
+        if not last_type.allows_marks(parent.child(i).marks):
+            return None
         inner_match = inner_match.match_type(parent.child(i).type)
         i += 1
 
